@@ -28,7 +28,7 @@ from hypothesis import strategies as st
 
 from vlib import gen
 from vlib.build import build_obs
-from vlib.core import Sub, Skip, require
+from vlib.core import spec_hash, Sub, Skip, require
 from vlib.refobs import RefObs, combine, cmp_obs
 
 PROPERTY = 'C20'
@@ -207,6 +207,14 @@ def tag_oracle(spec):
     want = grid_expected(d, t['v'])
     require(_is44(np.asarray(res)), 'Grid_gamma(%r) is not a 4x4 array' % (tag,), getattr(res, 'shape', None))
     require(_exact(res, want), 'Grid_gamma(%r) is not the stated product / commutator' % (tag,), np.asarray(res).tolist(), want.tolist())
+    # every named structure equals the stated matrix - also after other structures have been asked for: a caller keeps the
+    # matrices it was given (e.g. a list comprehension over the names) and each must still be the one of its name
+    kept = [(n_, d.Grid_gamma(n_)) for n_ in sorted(GRID)]
+    require(_exact(res, want), 'the matrix returned by Grid_gamma(%r) changed when other structures were requested afterwards' % (tag,),
+            np.asarray(res).tolist(), want.tolist())
+    for n_, m_ in kept:
+        require(_exact(m_, grid_expected(d, n_)), 'Grid_gamma(%r), kept while the other structures were requested, is no longer the stated matrix' % (n_,),
+                np.asarray(m_).tolist())
     return {'nt': bool(spec.get('table', False)) or t['form'] != 'str', 'cls': ['known:' + GRID[t['v']][0], 'form:' + t['form']]}
 
 
@@ -875,6 +883,7 @@ def special_case(draw, tier):
 
 def special_oracle(spec):
     import pyerrors as pe
+    import autograd.numpy as anp
     name = spec['fn']
     kinds, doms, fref, dref = SPECIAL[name]
     fun = getattr(pe.special, name)
@@ -927,6 +936,17 @@ def special_oracle(spec):
                 except (ValueError, OverflowError, ZeroDivisionError):
                     raise Skip('non-finite reference')
         call = lambda x: fun(*[x[p] if p is not None else cst for p, cst in zip(pos, consts)])  # noqa: E731
+        if name in ('gammainc', 'gammaincc') and pos[0] is None and pos[1] is not None and int(spec_hash(spec), 16) % 3 == 0:
+            # broadcasting layout: an array of shape parameters at one observable argument, summed
+            avec = [consts[0], consts[0] + 0.5, consts[0] + 1.3]
+            k1 = pos[1]
+
+            def base(v):        # noqa: F811
+                return float(sum(fref(a_, v[k1]) for a_ in avec))
+            gterms = [None] * len(obs)
+            gterms[k1] = [float(t) for a_ in avec for t in dref[1](a_, vals[k1])]
+            call = lambda x: anp.sum(fun(np.array(avec), x[k1]))  # noqa: E731
+            spec = dict(spec, _parray=True)
     g0 = [math.fsum(t) for t in gterms]
     s0 = [math.fsum(abs(x) for x in t) for t in gterms]
     f0 = base(vals)
@@ -947,6 +967,8 @@ def special_oracle(spec):
     judge(what, res, f, g, s, refs, hs)
     fl = any(fluctuates(o) for o in obs)
     labs = {'fn:' + name, 'wrap:' + wrap, 'nobs:%d' % len(obs)} | layout_labels(spec['obs'])
+    if spec.get('_parray'):
+        labs.add('array_of_shape_parameters')
     if any(p is None and k == 'x' for p, k in zip(pos, kinds)):
         labs.add('number_in_differentiable_slot')
     return {'nt': fl, 'cls': sorted(labs)}
